@@ -106,6 +106,7 @@ def k_day_order(eng, which):
                    "LunarMonth::get_month_with_leap": ("get_month_with_leap", "&LunarMonth", None), "LunarMonth::get_index_in_year": ("get_index_in_year", "&LunarMonth", None),
                    "LunarYear::get_year": ("get_year", "&LunarYear", None)}
         ctx = _ctx(eng, getters)
+        ctx.auto_inline = True       # the specification names no call: private helpers (e.g. an ordinal) are executed, not abstracted
         holder.update(ctx=ctx)
         L = ctx.fresh_value("leap_of_year", "usize")
 
@@ -153,19 +154,22 @@ def k_day_order(eng, which):
             fields = struct_fields(os.path.join(REPO, "src/tyme/lunar.rs"), "LunarDay")
             mfields = struct_fields(os.path.join(REPO, "src/tyme/lunar.rs"), "LunarMonth")
             di, mi = fields.index("day"), fields.index("month")
+            yfields = struct_fields(os.path.join(REPO, "src/tyme/lunar.rs"), "LunarYear")
             def side(n):
-                return (int(g("|%s.%d.%d|" % (n, mi, mfields.index("month")))), 1 if g("|%s.%d.%d|" % (n, mi, mfields.index("leap"))) == "true" else 0, int(g("|%s.%d|" % (n, di))))
+                return (int(g("|%s.%d.%d|" % (n, mi, mfields.index("month")))), 1 if g("|%s.%d.%d|" % (n, mi, mfields.index("leap"))) == "true" else 0, int(g("|%s.%d|" % (n, di))),
+                        int(g("|%s.%d.%d.%d|" % (n, mi, mfields.index("year"), yfields.index("year")))))
             a, b = side("self"), side("target")
+            dy = max(-3, min(3, b[3] - a[3]))
         except Exception as e:
             return False, "model incomplete %r" % e
-        nat = eng.native("lunar_order", 0 if which == "is_before" else 1, L, a[0], a[1], min(a[2], 29), b[0], b[1], min(b[2], 29))
+        nat = eng.native("lunar_order", 0 if which == "is_before" else 1, L, a[0], a[1], min(a[2], 29), b[0], b[1], min(b[2], 29), dy)
         if nat in ("NONE", "PANIC"):
             return False, "no real year realises the pair (%s)" % nat
         res, ia, ib = nat.split()
-        ka, kb = (int(ia), min(a[2], 29)), (int(ib), min(b[2], 29))
+        ka, kb = (0, int(ia), min(a[2], 29)), (dy, int(ib), min(b[2], 29))
         exp = ka < kb if which == "is_before" else ka > kb
-        return ((res == "true") != exp), "%s of (month %d%s day %d) vs (month %d%s day %d) in a year with leap month %d = %s, chronological order says %s" % (
-            which, a[0], " leap" if a[1] else "", ka[1], b[0], " leap" if b[1] else "", kb[1], L, res, str(exp).lower())
+        return ((res == "true") != exp), "%s of (month %d%s day %d) vs (month %d%s day %d, %+d years) in a year with leap month %d = %s, chronological order says %s" % (
+            which, a[0], " leap" if a[1] else "", ka[2], b[0], " leap" if b[1] else "", kb[2], dy, L, res, str(exp).lower())
 
     r = run_kernel(eng, "02.a/B/%s" % which, "02.a", "any two lunar days, any leap month of their year; month records satisfy the constructor's invariant (03.c)", build, None, replay)
     return _finish(r, holder["ctx"]) if "ctx" in holder else r
